@@ -306,7 +306,8 @@ def valueTabCheck : S Bool := do
   if (← lookCh) == '\t' then do
     let r ← skipWsToEol .yes
     if !r.hasValidYamlWs then do
-      if (← peek) == '-' then pure true else liftI In.nextIsAlpha
+      if (← getS).flowLevel != 0 then pure false
+      else if (← peek) == '-' then pure true else liftI In.nextIsAlpha
     else pure false
   else pure false
 
@@ -316,7 +317,9 @@ def fetchValue : S Unit := do
   | [] => panicAt .simpleKeysLastUnwrap
   | sk :: _ => do
     let startMark := s.mark
-    let isImplicit := !s.implStates.isEmpty && !s.flowMappingStarted
+    let isImplicit := (match s.implStates with
+      | .possible :: _ | .inside :: _ => true
+      | _ => false) && !s.flowMappingStarted
     (if isImplicit then modS fun s => { s with implStates := .inside :: s.implStates.tail } else pure ())
     skipNonBlank
     let tabErr ← valueTabCheck
